@@ -918,3 +918,34 @@ fn ops_pow_k2_witness() {
     std::mem::forget(r);
     kani::cover!(hit);
 }
+
+// LINT ** n where the i128 INTERMEDIATE overflows (2^62 cubed is 2^186): that must be the value-dependent
+// fault Overflow, never a panic (C01) and never a wrapped value (C02). Bases are the powers of two
+// +-2^k (their powers are exact shifts, so the oracle needs no multiplier); a general LINT base does not
+// finish in CBMC (128-bit multipliers).
+// @unit id=ops.pow.lint.pow2 props=C01,C02,C03 tier=quick kind=bounded bound="bases +-2^k (k = 0..=63), exponent 0..=5" timeout=1500 fn=apply_binary,numeric_arith,signed_from_i128
+#[kani::proof]
+#[kani::unwind(8)]
+fn ops_pow_lint_pow2() {
+    let k: u32 = kani::any();
+    let neg: bool = kani::any();
+    let b: i64 = kani::any();
+    kani::assume(k <= 63 && (k < 63 || neg) && b >= 0 && b <= 5);
+    let a: i64 = if k == 63 { i64::MIN } else if neg { -(1i64 << k) } else { 1i64 << k };
+    let r = apply_binary(BinaryOp::Pow, Value::LInt(a), Value::LInt(b), &profile());
+    let e = k as i64 * b; // a ** b = (+-1)^b * 2^e
+    let negative = neg && b % 2 == 1;
+    let ok = if e <= 62 {
+        let v = if negative { -(1i64 << e) } else { 1i64 << e };
+        matches!(&r, Ok(Value::LInt(x)) if *x == v)
+    } else if e == 63 && negative {
+        matches!(&r, Ok(Value::LInt(x)) if *x == i64::MIN)
+    } else {
+        matches!(&r, Err(RuntimeError::Overflow))
+    };
+    kani::cover!(k == 62 && b == 3);          // 2^186: the i128 intermediate overflows
+    kani::cover!(k == 21 && b == 3 && neg);   // -2^63 fits
+    kani::cover!(e == 62 && !negative);
+    std::mem::forget(r);
+    assert!(ok, "LINT ** n is the exact power when it fits LINT and the value-dependent fault Overflow otherwise (never a panic, never a wrapped value)");
+}
